@@ -235,7 +235,10 @@ impl World {
                 .collect(),
         };
         for class in SENTENCE_CLASSES {
-            let pool = (0..4).map(|_| world.gen_sentence(*class, rng)).collect();
+            // the first sentence of every pool has a removed token right before a kept one that
+            // follows two or more kept ones (the shape prefix phrases over a gap are cut from)
+            let mut pool: Vec<Vec<String>> = vec![world.gen_gap_sentence(*class, rng)];
+            pool.extend((0..3).map(|_| world.gen_sentence(*class, rng)));
             world.sentences.push(pool);
         }
         world
@@ -287,6 +290,60 @@ impl World {
             }
         }
         s
+    }
+
+    /// 2-3 kept tokens, one removed token (now and then two), a kept token of two or more
+    /// characters, 0-2 more tokens
+    fn gen_gap_sentence(&self, field: FieldSel, rng: &mut Rng) -> Vec<String> {
+        let mut s: Vec<String> = (0..rng.urange(2, 3)).map(|_| self.kept_word(field, rng)).collect();
+        s.push(self.removed_word(field, rng));
+        if rng.chance(1, 4) {
+            s.push(self.removed_word(field, rng));
+        }
+        let mut last = self.kept_word(field, rng);
+        for _ in 0..20 {
+            if last.chars().count() >= 2 {
+                break;
+            }
+            last = self.kept_word(field, rng);
+        }
+        s.push(last);
+        s.extend((0..rng.urange(0, 2)).map(|_| self.raw_word(field, rng)));
+        s
+    }
+
+    /// A prefix phrase cut from a pooled sentence so that the analyzer removes the token right
+    /// before the prefix and keeps two or more tokens before that: `"aa bb the cc"*` on a
+    /// stop-word field is aa, bb, one position left out, then a token starting with cc.
+    fn gen_prefix_over_gap(&self, field: FieldSel, rng: &mut Rng) -> Option<Leaf> {
+        let pool = &self.sentences[sentence_class(field)];
+        let mut spots: Vec<(usize, usize)> = vec![];
+        for (si, s) in pool.iter().enumerate() {
+            for i in 1..s.len() {
+                let kept_before = s[..i].iter().filter(|w| keeps(field, w)).count();
+                if keeps(field, &s[i]) && !keeps(field, &s[i - 1]) && kept_before >= 2 {
+                    spots.push((si, i));
+                }
+            }
+        }
+        if spots.is_empty() {
+            return None;
+        }
+        let (si, i) = *rng.pick(&spots);
+        let s = &pool[si];
+        // the literal starts at a kept token with two or more kept tokens up to the gap
+        let starts: Vec<usize> = (0..i)
+            .filter(|k| keeps(field, &s[*k]) && s[*k..i].iter().filter(|w| keeps(field, w)).count() >= 2)
+            .collect();
+        let start = *rng.pick(&starts);
+        let mut words: Vec<String> = s[start..=i].to_vec();
+        let cs: Vec<char> = s[i].chars().collect();
+        // the prefix is itself a token the analyzer keeps (`to` of `tokyo` is a stop word)
+        let lens: Vec<usize> = (1..=cs.len()).filter(|n| keeps(field, &cs[..*n].iter().collect::<String>())).collect();
+        let n = *rng.pick(&lens);
+        let last = words.len() - 1;
+        words[last] = cs[..n].iter().collect();
+        Some(Leaf::Phrase { field, words, slop: 0, prefix: true })
     }
 
     fn sentence(&self, field: FieldSel, rng: &mut Rng) -> &Vec<String> {
@@ -904,7 +961,13 @@ impl World {
             FieldSel::Title, FieldSel::Body, FieldSel::Tag, FieldSel::Weird, FieldSel::U, FieldSel::I, FieldSel::F,
             FieldSel::D, FieldSel::Ip, FieldSel::By, FieldSel::B, FieldSel::Sw, FieldSel::Lg,
         ];
-        match rng.weighted(&[40, 10, 18, 14, 10, 2]) {
+        match rng.weighted(&[40, 10, 18, 14, 10, 2, 5]) {
+            6 => {
+                let field = *rng.pick(&[
+                    FieldSel::Default, FieldSel::Title, FieldSel::Body, FieldSel::Sw, FieldSel::Sw, FieldSel::Lg, FieldSel::Lg,
+                ]);
+                self.gen_prefix_over_gap(field, rng).unwrap_or(Leaf::All)
+            }
             0 => {
                 let field = *rng.pick(TERM_FIELDS);
                 Leaf::Term { field, val: self.gen_val(field, rng) }
@@ -1292,6 +1355,25 @@ pub fn prefix_after_removed_token(n: &Node) -> Option<Vec<usize>> {
     } else {
         None
     }
+}
+
+/// the prefix phrases of the shape `prefix_after_removed_token` anywhere in `n`
+pub fn prefix_over_gap_leaves(n: &Node) -> Vec<Leaf> {
+    fn walk(n: &Node, out: &mut Vec<Leaf>) {
+        match n {
+            Node::Leaf(l) => {
+                if prefix_after_removed_token(n).is_some() {
+                    out.push(l.clone());
+                }
+            }
+            Node::Occur(items) => items.iter().for_each(|(_, x)| walk(x, out)),
+            Node::OrOfAnds(groups) => groups.iter().flatten().for_each(|(_, x)| walk(x, out)),
+            Node::Group { inner, .. } => walk(inner, out),
+        }
+    }
+    let mut out = vec![];
+    walk(n, &mut out);
+    out
 }
 
 /// does some clause of `n` hold the same operand (marker and expression) twice?
@@ -2088,6 +2170,241 @@ fn nested_input(rng: &mut Rng) -> String {
         post.insert_str(0, c);
     }
     format!("{pre}{}{post}", rng.pick(&["a", "", "*", "title:a", "\"a b\"~1", "[a TO b]", "a b", " "]))
+}
+
+// ---------------------------------------------------------------------------------------------
+// reserved words in literal positions (agreement stream)
+//
+// The family: a query in which a reserved word of the grammar (AND, OR, NOT, IN, TO) stands where
+// a VALUE stands - as a quoted phrase, as the value of a field, as a set element, as a range bound,
+// next to parentheses, occur markers, boosts and the real operators - in every quoting style, with
+// and without a field prefix. Most of these are well-formed for the strict grammar (the quoted
+// ones always are); the property then demands the same tree and no error from the lenient one.
+
+pub const RW_KEYWORDS: &[&str] = &["AND", "OR", "NOT", "IN", "TO"];
+
+pub const RW_STYLES: &[&str] = &[
+    "double-quoted",
+    "single-quoted",
+    "double-quoted-with-escape",
+    "single-quoted-with-escape",
+    "bare",
+    "bare-with-escape",
+];
+
+/// (label, prefix as written)
+pub const RW_FIELDS: &[(&str, &str)] = &[
+    ("no-field", ""),
+    ("text", "title:"),
+    ("text-blank-after-colon", "title: "),
+    ("text-blank-before-colon", "title :"),
+    ("string", "tag:"),
+    ("json-path", "js.s:"),
+    ("escaped-field-name", "k\\:v\\ x:"),
+    ("unknown-field", "nofield:"),
+];
+
+/// what the slot `{}` of a context is for the grammar
+#[derive(Clone, Copy, Debug, PartialEq, Eq)]
+pub enum RwSlot {
+    /// an operand of its own: carries the field prefix and may carry `*` / `~n`
+    Operand,
+    /// an operand inside `field:( ... )`: written without a field, `{F}` is the group's field
+    GroupMember,
+    /// an element of `field: IN [ ... ]`: no field, no suffix, `{F}` is the set's field
+    SetElement,
+    /// a bound of `field:[x TO y]` / `field:>=x`: a bare word, `{F}` is the range's field
+    RangeBound,
+}
+
+/// (label, template, slot kind); `{}` = the reserved-word literal, `{F}` = a field prefix, a blank
+/// = a place where the strict grammar wants whitespace (more of it is added as noise)
+pub const RW_CONTEXTS: &[(&str, &str, RwSlot)] = &[
+    ("alone", "{}", RwSlot::Operand),
+    ("in-parentheses", "({})", RwSlot::Operand),
+    ("in-parentheses-with-blanks", "( {} )", RwSlot::Operand),
+    ("nested-parentheses", "(({}))", RwSlot::Operand),
+    ("must", "+{}", RwSlot::Operand),
+    ("must-then-term", "+{} a", RwSlot::Operand),
+    ("must-not-after-term", "a -{}", RwSlot::Operand),
+    ("after-NOT-keyword", "a NOT {}", RwSlot::Operand),
+    ("NOT-keyword-first", "NOT {} a", RwSlot::Operand),
+    ("after-term", "a {}", RwSlot::Operand),
+    ("before-term", "{} a", RwSlot::Operand),
+    ("between-terms", "a {} b", RwSlot::Operand),
+    ("twice", "{} b {}", RwSlot::Operand),
+    ("AND-right", "a AND {}", RwSlot::Operand),
+    ("AND-left", "{} AND a", RwSlot::Operand),
+    ("OR-right", "a OR {}", RwSlot::Operand),
+    ("OR-left", "{} OR a", RwSlot::Operand),
+    ("AND-NOT", "a AND NOT {}", RwSlot::Operand),
+    ("AND-inside-OR", "a AND {} OR b", RwSlot::Operand),
+    ("AND-with-must-not", "a AND -{}", RwSlot::Operand),
+    ("clause-in-parentheses", "(a {})", RwSlot::Operand),
+    ("parentheses-then-term", "({}) a", RwSlot::Operand),
+    ("term-then-parentheses", "a ({})", RwSlot::Operand),
+    ("must-parentheses", "+({} a)", RwSlot::Operand),
+    ("must-not-parentheses", "a -({})", RwSlot::Operand),
+    ("NOT-parentheses", "a NOT ({})", RwSlot::Operand),
+    ("parentheses-AND-parentheses", "({}) AND (a OR {})", RwSlot::Operand),
+    ("boosted", "{}^2", RwSlot::Operand),
+    ("boosted-then-term", "{}^2 a", RwSlot::Operand),
+    ("parentheses-boosted", "({})^2", RwSlot::Operand),
+    ("boosted-clause", "(a {})^2 b", RwSlot::Operand),
+    ("field-group", "{F}({})", RwSlot::GroupMember),
+    ("field-group-with-blanks", "{F}( {} )", RwSlot::GroupMember),
+    ("field-group-clause", "{F}(a {})", RwSlot::GroupMember),
+    ("field-group-occurs", "{F}(+{} -a)", RwSlot::GroupMember),
+    ("field-group-OR", "{F}(a OR {})", RwSlot::GroupMember),
+    ("field-group-NOT", "{F}(a NOT {})", RwSlot::GroupMember),
+    ("field-group-boosted-member", "{F}({}^2 a)", RwSlot::GroupMember),
+    ("field-group-boosted", "{F}({})^2 a", RwSlot::GroupMember),
+    ("field-group-nested-parentheses", "{F}((a) ({}))", RwSlot::GroupMember),
+    ("set-single", "{F} IN [{}]", RwSlot::SetElement),
+    ("set-first", "{F} IN [{} a]", RwSlot::SetElement),
+    ("set-last", "{F} IN [a {}]", RwSlot::SetElement),
+    ("set-middle", "{F} IN [a {} b]", RwSlot::SetElement),
+    ("set-in-clause", "a {F} IN [{}] b", RwSlot::SetElement),
+    ("range-lower", "{F}[{} TO b]", RwSlot::RangeBound),
+    ("range-upper", "{F}{a TO {}}", RwSlot::RangeBound),
+    ("range-both", "{F}[{} TO {}]", RwSlot::RangeBound),
+    ("range-comparison", "{F}>={}", RwSlot::RangeBound),
+    ("range-comparison-in-clause", "a {F}<{} b", RwSlot::RangeBound),
+];
+
+/// what stands between the delimiters
+pub const RW_CONTENTS: &[&str] = &[
+    "exact",
+    "lower-case",
+    "capitalised",
+    "keyword-then-word",
+    "word-then-keyword",
+    "two-keywords",
+    "blank-padded",
+    "glued-to-a-word",
+];
+
+pub struct RwCase {
+    pub input: String,
+    pub keyword: &'static str,
+    pub style: &'static str,
+    pub field: &'static str,
+    pub context: &'static str,
+    pub content: &'static str,
+    pub suffix: &'static str,
+}
+
+/// number of (keyword, style, field form, context) combinations: cases `0..rw_core_size()` walk
+/// through all of them with the exact keyword, no suffix and single blanks; later cases walk
+/// through them again with random content / suffix / whitespace
+pub fn rw_core_size() -> u64 {
+    (RW_KEYWORDS.len() * RW_STYLES.len() * RW_FIELDS.len() * RW_CONTEXTS.len()) as u64
+}
+
+fn rw_literal(text: &str, style: &str, slot: RwSlot, rng: &mut Rng) -> String {
+    // a range bound is a bare word for both grammars (no quoting, no escaping)
+    let style = if slot == RwSlot::RangeBound { "bare" } else { style };
+    let with_escape = |body: String, rng: &mut Rng| -> String {
+        // a backslash in front of one character that needs none
+        let cs: Vec<char> = body.chars().collect();
+        let letters: Vec<usize> = (0..cs.len()).filter(|k| cs[*k].is_ascii_alphabetic()).collect();
+        if letters.is_empty() {
+            return body;
+        }
+        let at = *rng.pick(&letters);
+        let mut out = String::new();
+        for (k, c) in cs.iter().enumerate() {
+            if k == at {
+                out.push('\\');
+            }
+            out.push(*c);
+        }
+        out
+    };
+    match style {
+        "double-quoted" => format!("\"{text}\""),
+        "single-quoted" => format!("'{text}'"),
+        "double-quoted-with-escape" => format!("\"{}\"", with_escape(text.to_string(), rng)),
+        "single-quoted-with-escape" => format!("'{}'", with_escape(text.to_string(), rng)),
+        "bare" if slot == RwSlot::RangeBound => text.replace(' ', "_"),
+        "bare" => bare_word(text, rng, PrintMode::Plain),
+        _ => with_escape(bare_word(text, rng, PrintMode::Plain), rng),
+    }
+}
+
+pub fn gen_reserved_word_query(case: u64, rng: &mut Rng) -> RwCase {
+    let core = rw_core_size();
+    let systematic = case < core;
+    let mut k = (case % core) as usize;
+    let mut digit = |n: usize| {
+        let d = k % n;
+        k /= n;
+        d
+    };
+    // the context varies fastest: neighbouring cases differ in one dimension
+    let (context, template, slot) = RW_CONTEXTS[digit(RW_CONTEXTS.len())];
+    let (field, field_text) = RW_FIELDS[digit(RW_FIELDS.len())];
+    let style = RW_STYLES[digit(RW_STYLES.len())];
+    let keyword = RW_KEYWORDS[digit(RW_KEYWORDS.len())];
+    let content = if systematic { "exact" } else { RW_CONTENTS[rng.weighted(&[6, 2, 1, 2, 2, 2, 1, 2])] };
+    let suffix = if systematic || slot == RwSlot::SetElement || slot == RwSlot::RangeBound {
+        ""
+    } else {
+        *rng.pick(&["", "", "", "*", "~1", "~0"])
+    };
+    let other = *rng.pick(RW_KEYWORDS);
+    let text = match content {
+        "exact" => keyword.to_string(),
+        "lower-case" => keyword.to_ascii_lowercase(),
+        "capitalised" => ascii_upper_first(&keyword.to_ascii_lowercase()),
+        "keyword-then-word" => format!("{keyword} a"),
+        "word-then-keyword" => format!("a {keyword}"),
+        "two-keywords" => format!("{keyword} {other}"),
+        "blank-padded" => format!(" {keyword} "),
+        _ => format!("{keyword}x"),
+    };
+    // `{F}` of a group / set / range needs a field: the field-less form stands for `title:`
+    let slot_field = if field_text.is_empty() { "title:" } else { field_text };
+    let mut input = String::new();
+    let mut rest = template;
+    let mut prev_word = String::new();
+    while let Some(c) = rest.chars().next() {
+        if let Some(r) = rest.strip_prefix("{}") {
+            if slot == RwSlot::Operand {
+                input.push_str(field_text);
+            }
+            input.push_str(&rw_literal(&text, style, slot, rng));
+            input.push_str(suffix);
+            prev_word.clear();
+            rest = r;
+        } else if let Some(r) = rest.strip_prefix("{F}") {
+            input.push_str(slot_field);
+            prev_word.clear();
+            rest = r;
+        } else if c == ' ' {
+            // the blank after an operator keyword is part of the operator
+            let after_operator = matches!(prev_word.as_str(), "AND" | "OR" | "NOT");
+            if systematic {
+                input.push(' ');
+            } else if after_operator {
+                input.push(' ');
+                input.push_str(&ws(rng, PrintMode::Noisy, false));
+            } else {
+                input.push_str(&ws(rng, PrintMode::Noisy, true));
+            }
+            prev_word.clear();
+            rest = &rest[1..];
+        } else {
+            if c.is_ascii_alphabetic() {
+                prev_word.push(c);
+            } else {
+                prev_word.clear();
+            }
+            input.push(c);
+            rest = &rest[c.len_utf8()..];
+        }
+    }
+    RwCase { input, keyword, style, field, context, content, suffix }
 }
 
 /// one case of the totality stream: (input class, inputs)
